@@ -10,6 +10,11 @@
                            1 switch from a parser with a root, 2 switch after output), 4 out of fuel
                      outs  VL [VL [VN via_sax; VB message] ...]     fed  VL [VB ...] (latest first)
               world  VL [VL [env; VL [VL [] | VL [VL events] ...]; VN dispatch] ...]
+     fn 5: the same on a base:1.1 session (Model/JunosParse11.v)
+     fn 6: process   [VL [VL [VN base; world; VB stream] ...]; VL [VL [VL [VL [VN len ...] per session]; VL [VN k ...]] ...]]
+                     several sessions in one process (Model/JunosProcess.v; base 10 or 11 per session); for each run (read
+                     lengths per session, order of turns: `deal`):
+                     VL [VL [VL [VN k; obs of session k after its read] per scheduled read]; VL [VL [outs; fed] per session]]
    encodings: event  VL [VN 0; VB name; attrs] | VL [VN 1; VB name] | VL [VN 2; VB text]
               attrs  VL [VL [VB k; VB v] ...]
               ftree  VL [VB tag; VL kids]
@@ -17,6 +22,7 @@
               doc    VL [VN 0; VB text] | VL [VN 1; VB name; attrs; VL kids]            *)
 From NC Require Import Model.Base Model.SaxFilter Spec.Projection Model.JunosParse Model.JunosSax.
 From NC Require Import Model.Framing11 Model.JunosParse11.
+From NC Require Import Model.JunosProcess.
 
 Definition dec_attrs (v : val) : attrs :=
   match v with
@@ -122,6 +128,43 @@ Definition run_driver11 (w : world) (stream : bytes) (lens : list nat) : val :=
   let (l, sf) := run_obs11 (sx_init11 w) (segments stream lens) in
   VL [VL l; VL (map (fun o => VL [vbool (fst o); VB (snd o)]) (douts (fst sf))); VL (map VB ([] :: dfed (fst sf)))].
 
+(* several sessions in one process (Model/JunosProcess.v): the schedule is dealt from the order of turns, after every
+   scheduled read the state of the session that took it is recorded *)
+Definition dec_sess (v : val) : list (bool * world * bytes) :=
+  match v with
+  | VL [VN b; w; VB stream] => [(N.eqb b 11, dec_world w, stream)]
+  | _ => []
+  end.
+
+Definition sess_init (d : bool * world * bytes) : sess :=
+  if fst (fst d) then S11 (sx_init11 (snd (fst d))) else S10 (sx_init (snd (fst d))).
+
+Definition enc_sobs (s : sess) : val :=
+  match s with S10 s => enc_obs s | S11 s => enc_obs11 s end.
+
+Definition enc_final (s : sess) : val :=
+  match s with
+  | S10 sf => VL [VL (map (fun o => VL [vbool (fst o); VB (snd o)]) (outs sf)); VL (map VB (fed sf))]
+  | S11 sf => VL [VL (map (fun o => VL [vbool (fst o); VB (snd o)]) (douts (fst sf))); VL (map VB ([] :: dfed (fst sf)))]
+  end.
+
+Fixpoint prun_obs (ss : list sess) (sched : list (nat * bytes)) : list val * list sess :=
+  match sched with
+  | [] => ([], ss)
+  | r :: t => let ss' := pstep sess sparse ss r in
+              let o := match nth_error ss' (fst r) with Some s => enc_sobs s | None => verr 1 end in
+              let (l, sf) := prun_obs ss' t in (VL [VN (N.of_nat (fst r)); o] :: l, sf)
+  end.
+
+Definition run_process (ds : list (bool * world * bytes)) (r : val) : val :=
+  match r with
+  | VL [VL lens; order] =>
+      let pending := map (fun p => segments (snd (fst p)) (dec_lens (snd p))) (combine ds lens) in
+      let (l, sf) := prun_obs (map sess_init ds) (deal (dec_lens order) pending) in
+      VL [VL l; VL (map enc_final sf)]
+  | _ => verr 1
+  end.
+
 Definition run (v : val) : val :=
   match v with
   | VL [VN 1; e; VL evs] =>
@@ -135,5 +178,7 @@ Definition run (v : val) : val :=
       let wd := dec_world w in VL (map (fun c => run_driver wd stream (dec_lens c)) cutsets)
   | VL [VN 5; w; VB stream; VL cutsets] =>
       let wd := dec_world w in VL (map (fun c => run_driver11 wd stream (dec_lens c)) cutsets)
+  | VL [VN 6; VL sessions; VL runs] =>
+      let ds := flat_map dec_sess sessions in VL (map (run_process ds) runs)
   | _ => verr 1
   end.
